@@ -88,6 +88,12 @@ def r2(cx, rec):
     C01.r7(cx, rec)
 
 
+@TABLE.rule('2b', 'K1', 'PieceDone (hence SendHave) requires that the verified piece was really written (shared with C01)', floor=2)
+def r2b(cx, rec):
+    C01.r5b(cx, rec)
+    C01.r5(cx, rec)
+
+
 @TABLE.rule('3', 'K1', 'no-drop: SendHave{i} leads to send Have(i) or to buffering Have(i), chosen by peer_state.choked', floor=3)
 def r3(cx, rec):
     F = cx.F
